@@ -126,6 +126,33 @@ def check(run):
     imp = [s for s in ast.walk(g.tree) if isinstance(s, ast.ImportFrom) and s.module in ('cffi._cffi_gen_src', '_cffi_gen_src') and
            any(a.name == 'run' for a in s.names)]
     call = [c for c in ast.walk(g.tree) if isinstance(c, ast.Call) and u(c.func) == 'run' and not c.args and not c.keywords]
+    # nothing else reaches stdout: with output '-' the text written by sys.stdout.write must be the only bytes.
+    # emit_c_code(<file-like>) -> recompile(..., c_file=<file-like>, compiler_verbose=<default>) -> _make_c_or_py_source
+    from ..pyast import sympath as sp
+    rm = cffi_mod('recompiler')
+    api = cffi_mod('api')
+    rc = rm.find('recompile')
+    dflt = {a.arg: d for a, d in zip(rc.args.args[-len(rc.args.defaults):], rc.args.defaults)}
+    ecall = [c for c in ast.walk(api.find('FFI.emit_c_code')) if isinstance(c, ast.Call) and u(c.func) == 'recompile']
+    run.need(len(ecall) == 1, 'FFI.emit_c_code: expected one recompile(...) call')
+    given = {k.arg: k.value for k in ecall[0].keywords if k.arg}
+    vnode = given.get('compiler_verbose', dflt.get('compiler_verbose'))
+    try:
+        verbose = ast.literal_eval(vnode) if vnode is not None else None
+    except Exception:
+        verbose = sp.Opq('compiler_verbose')
+    mk = rm.find('_make_c_or_py_source')
+    prints = []
+
+    def h_print(a, k, e, f):
+        if 'file' not in k:
+            prints.append(a)
+    ev = sp.Evaluator({'print': h_print, '_is_file_like': lambda a, k, e, f: True, 'Recompiler': lambda a, k, e, f: sp.Opq('recompiler')})
+    ps = ev.run(mk, {'verbose': verbose, 'target_file': sp.Opq('<file-like>'), 'preamble': 'x'})
+    fl = [p for p in ps if p.outcome and p.outcome[0] == 'return']
+    run.ob('F/nothing-else-is-printed-to-stdout', '_make_c_or_py_source', 'emit_c_code(<file-like>): no print() on the way (verbose=%r from recompile\'s default)' % (verbose,),
+           bool(fl) and not prints, rm.where(mk),
+           'print(%s) goes to stdout before the generated text: `cffi-gen-src ... -` starts with that line' % (', '.join(map(repr, prints[0])) if prints else ''))
     run.ob('F/module-entry-point-is-run', 'cffi.gen_src', 'from cffi._cffi_gen_src import run; run()', bool(imp) and len(call) == 1, 'src/cffi/gen_src.py')
     pp = os.path.join(repo_root(), 'pyproject.toml')
     txt = open(pp).read() if os.path.exists(pp) else ''
